@@ -31,38 +31,51 @@ def _rows_failing_cells(case):
 _PYEQUAL = ({"b1", "#1"}, {"b0", "#0"})
 
 
+def _row_pyequal_kept(case, r):
+  """The row still holds its previous value, a list token, and the conversion is a list token that
+  differs from it only in elements that are Python-equal (True / 1, False / 0)."""
+  if not (r["after"] == r["prev"] and r["prev"].startswith("L[") and r["cconv"].startswith("L[")):
+    return False
+  old, new = json.loads(r["prev"][1:]), json.loads(r["cconv"][1:])
+  return len(old) == len(new) and all(a == b or {a, b} in _PYEQUAL for a, b in zip(old, new))
+
+
+def _row_reflist_reparsed(case, r):
+  """The new type is RefList / Attachments, the row stores a list token that holds an oversized integer
+  (a 'U[...]' element) where the conversion is a text token that starts with '['."""
+  return (case["to"].startswith("RefList:") or case["to"] == "Attachments") and \
+    r["after"].startswith("L[") and any(e.startswith("U[") for e in json.loads(r["after"][1:])) and \
+    r["cconv"].startswith("s[")
+
+
+_ROW_CLASSES = (_row_pyequal_kept, _row_reflist_reparsed)
+
+
+def _known_rows(v, mine):
+  """Every failing row of the case has one of the known shapes, and at least one has the shape `mine`
+  (one column may show both defects in different rows)."""
+  if v["clause"] != "C23.cells":
+    return False
+  case = v["case"]
+  rows = _rows_failing_cells(case)
+  return bool(rows) and all(any(f(case, r) for f in _ROW_CLASSES) for r in rows) and \
+    any(mine(case, r) for r in rows)
+
+
 def _pyequal_kept(v):
   """doModifyColumn skips `new_column.set` when objtypes.strict_equal(old, converted): that compares the
   outer type and then uses ==, so a converted value that differs from the stored one only by the Python
-  type of a number INSIDE a list ([True] -> [1] for RefList, ...) is never stored; the cell keeps the old
-  value, which the new type does not accept.  Recognised by: every failing row still holds its previous
-  value, a list token, and the conversion is a list token that differs from it only in elements that
-  are Python-equal (True / 1, False / 0)."""
-  if v["clause"] != "C23.cells":
-    return False
-  def only_pyequal(r):
-    if not (r["after"] == r["prev"] and r["prev"].startswith("L[") and r["cconv"].startswith("L[")):
-      return False
-    old, new = json.loads(r["prev"][1:]), json.loads(r["cconv"][1:])
-    return len(old) == len(new) and all(a == b or {a, b} in _PYEQUAL for a, b in zip(old, new))
-  rows = _rows_failing_cells(v["case"])
-  return bool(rows) and all(only_pyequal(r) for r in rows)
+  type of a number INSIDE a list ([True] -> [1] for RefList / Attachments) is never stored; the cell keeps
+  the old value, which the new type does not accept."""
+  return _known_rows(v, _row_pyequal_kept)
 
 
 def _reflist_alt_text_reparsed(v):
   """Changing a column to RefList / Attachments: where the conversion fails because a row id is too large
   (>= 2**31), convert() returns the alt text '[2147483648]', but ReferenceListColumn.set ->
   _clean_up_value parses any text that is a JSON list of positive integers back into a list, so the cell
-  stores the list (with the oversized id) instead of the alt text.  Recognised by: every failing row
-  stores a list token that holds an oversized integer ('U[...]' element) where the conversion is a text
-  token that starts with '['."""
-  case = v["case"]
-  if v["clause"] != "C23.cells" or not (case["to"].startswith("RefList:") or case["to"] == "Attachments"):
-    return False
-  rows = _rows_failing_cells(case)
-  return bool(rows) and all(
-    r["after"].startswith("L[") and any(e.startswith("U[") for e in json.loads(r["after"][1:])) and
-    r["cconv"].startswith("s[") for r in rows)
+  stores the list (with the oversized id) instead of the alt text."""
+  return _known_rows(v, _row_reflist_reparsed)
 
 
 MATCHERS = {"nested_pyequal_value_kept": _pyequal_kept, "reflist_alt_text_reparsed": _reflist_alt_text_reparsed}
